@@ -16,7 +16,7 @@ structure Inv (h : Heap) : Prop where
   fresh : ∀ i ∈ idsL h.comps, i < h.nextNode
 
 theorem Inv_empty : Inv ({} : Heap) := by
-  refine ⟨⟨?_, ?_, ?_, ?_, ?_⟩, ?_⟩ <;> simp [idsL, namesL]
+  refine ⟨⟨?_, ?_, ?_, ?_, ?_⟩, ?_⟩ <;> simp [idsL, namesL, namesOf]
 
 theorem weaken {cs : List RNode} (ok : ForestOK cs) (fl : Option Nat) : ForestOKx fl cs :=
   ⟨ok.ids, ok.names, ok.plainKids, ok.roots, fun c hc hr _ => ok.lone c hc hr (by simp)⟩
@@ -222,11 +222,11 @@ theorem findInList_append (id : Nat) (a b : List RNode) :
 
 /-! ### new objects, metadata assignment -/
 
-theorem mkRoot_inv (h : Heap) (name : String) (inv : Inv h) (hname : name ∉ namesL h.comps) :
-    Inv (mkRoot h name) ∧ keysL (mkRoot h name).comps = keysL h.comps ++ [(h.nextNode, name)] := by
+theorem mkRoot_inv (h : Heap) (name : String) (inv : Inv h) :
+    Inv (mkRoot h name) ∧ keysL (mkRoot h name).comps = keysL h.comps ++ [(h.nextNode, name, true)] := by
   have hfreshid : h.nextNode ∉ idsL h.comps := fun hi => Nat.lt_irrefl _ (inv.fresh _ hi)
-  obtain ⟨ok1, hk1⟩ := newTop_ok inv.ok (RNode.mk h.nextNode name true (some h.nextNode) (some "") [] []) rfl hfreshid hname
-    (Or.inl ⟨rfl, rfl, rfl⟩)
+  obtain ⟨ok1, hk1⟩ := newTop_ok inv.ok (RNode.mk h.nextNode name true (some h.nextNode) (some "") [] []) rfl hfreshid
+    (fun hr => by cases hr) (Or.inl ⟨rfl, rfl, rfl⟩)
   refine ⟨⟨ok1, ?_⟩, hk1⟩
   intro i hi
   simp only [mkRoot, idsL, hk1, List.map_append, List.mem_append, List.map_cons, List.map_nil, List.mem_singleton, RNode.id] at hi ⊢
@@ -235,9 +235,9 @@ theorem mkRoot_inv (h : Heap) (name : String) (inv : Inv h) (hname : name ∉ na
   | inr h' => rw [h']; exact Nat.lt_succ_self _
 
 theorem mkNode_inv (h : Heap) (name : String) (inv : Inv h) (hname : name ∉ namesL h.comps) :
-    Inv (mkNode h name) ∧ keysL (mkNode h name).comps = keysL h.comps ++ [(h.nextNode, name)] := by
+    Inv (mkNode h name) ∧ keysL (mkNode h name).comps = keysL h.comps ++ [(h.nextNode, name, false)] := by
   have hfreshid : h.nextNode ∉ idsL h.comps := fun hi => Nat.lt_irrefl _ (inv.fresh _ hi)
-  obtain ⟨ok1, hk1⟩ := newTop_ok inv.ok (RNode.mk h.nextNode name false none none [] []) rfl hfreshid hname
+  obtain ⟨ok1, hk1⟩ := newTop_ok inv.ok (RNode.mk h.nextNode name false none none [] []) rfl hfreshid (fun _ => hname)
     (Or.inr ⟨rfl, rfl⟩)
   refine ⟨⟨ok1, ?_⟩, hk1⟩
   intro i hi
@@ -252,11 +252,10 @@ theorem cut_eq (h : Heap) (nid : Nat) (opt : MdOpt) (n r : RNode) (hn : h.find n
     cut h nid opt = graftInto (mkRoot h (r.name ++ "_cut_" ++ n.name)) nid h.nextNode opt := by
   simp only [cut, hn, hr, mkRoot, RNode.id]
 
-theorem cut_inv (h : Heap) (nid : Nat) (opt : MdOpt) (inv : Inv h)
-    (hname : ∀ x r, h.find nid = some x → x.root.bind h.find = some r → (r.name ++ "_cut_" ++ x.name) ∉ namesL h.comps) :
+theorem cut_inv (h : Heap) (nid : Nat) (opt : MdOpt) (inv : Inv h) :
     Inv (cut h nid opt).1 ∧
     ((keysL (cut h nid opt).1.comps).Perm (keysL h.comps) ∨
-     ∃ nm, (keysL (cut h nid opt).1.comps).Perm (keysL h.comps ++ [(h.nextNode, nm)])) := by
+     ∃ nm, (keysL (cut h nid opt).1.comps).Perm (keysL h.comps ++ [(h.nextNode, nm, true)])) := by
   cases hn : h.find nid with
   | none => simp only [cut, hn]; exact ⟨inv, Or.inl (List.Perm.refl _)⟩
   | some n =>
@@ -265,7 +264,7 @@ theorem cut_inv (h : Heap) (nid : Nat) (opt : MdOpt) (inv : Inv h)
     | some r =>
       rw [cut_eq h nid opt n r hn hr]
       have hfreshid : h.nextNode ∉ idsL h.comps := fun hi => Nat.lt_irrefl _ (inv.fresh _ hi)
-      obtain ⟨inv1, hk1⟩ := mkRoot_inv h (r.name ++ "_cut_" ++ n.name) inv (hname n r hn hr)
+      obtain ⟨inv1, hk1⟩ := mkRoot_inv h (r.name ++ "_cut_" ++ n.name) inv
       have hnc : noCycle (mkRoot h (r.name ++ "_cut_" ++ n.name)) nid h.nextNode := by
         intro s hs
         simp only [Heap.find, mkRoot, findInList_append] at hs hn
